@@ -183,6 +183,7 @@ func main() {
 			an.closedEraseSites(id)
 			an.closedConstArgs(id)
 			an.closedReturns(id)
+			an.closedCalls(id)
 			r.Extra["configurations"] = appendStr(r.Extra["configurations"], cfgName)
 			r.Extra["functions_analysed"] = len(c.FuncSeq)
 			r.Extra["callgraph_nodes"] = len(c.CG.Nodes)
